@@ -5,6 +5,7 @@ cd /repo || exit 2
 git diff --quiet || { echo "repo dirty"; exit 2; }
 git apply "$P" || { echo "patch does not apply"; exit 2; }
 cd /verif
+export VERIF_EVIDENCE_DIR=/verif/work/seeded-evidence   # never overwrite the evidence of the unchanged tree
 ./check "$ID" "$TIER" 2>&1 | tail -6
 RC=${PIPESTATUS[0]}
 git -C /repo checkout -- .
